@@ -1,7 +1,7 @@
 (* C05 — every encodable value decodes back to itself, in the size it declared.
    Only the property theorems live here; proofs are in Proofs/Wire.v and Proofs/Frames.v. *)
 From Coq Require Import List ZArith.
-From GQ Require Import Lib.Wire Model.Varint Model.Frames Model.Packets Model.Params Proofs.Wire Proofs.Frames Proofs.Packets.
+From GQ Require Import Lib.Wire Model.Varint Model.Frames Model.Packets Model.Params Model.Admission Proofs.Wire Proofs.Frames Proofs.Packets Proofs.Admission.
 Import ListNotations.
 Local Open Scope Z_scope.
 
@@ -33,6 +33,34 @@ Proof. exact p_c05_size. Qed.
 (* … and never exceeds the announced maximum, so a frame admitted by size always fits *)
 Theorem c05_frame_max : forall f, wf_frame f -> encoding_size f <= max_encoding_size f.
 Proof. exact p_c05_max. Qed.
+
+(* admission by size (Package::dump): an admitted frame occupies no more than the remaining space *)
+Theorem c05_admission : forall f remaining, wf_frame f -> admitted remaining f = true ->
+  match f with Crypto _ _ | Stream _ _ _ _ _ | Datagram _ _ => True | _ => zlen (put_frame f) <= remaining end.
+Proof. exact p_c05_admission_plain. Qed.
+
+(* STREAM frames are admitted through estimate_max_capacity + encoding_strategy: padding plus frame fit the
+   space, the assert and dump's own test cannot fail, a frame without a length field fills the packet *)
+Theorem c05_stream_admission : forall capacity sid off len cap_data,
+  varint_ok sid -> varint_ok off -> 0 <= len ->
+  stream_estimate capacity sid off = Some cap_data -> len <= cap_data ->
+  exists explicit pad, encoding_strategy capacity sid off len = Some (explicit, pad) /\
+    0 <= pad /\
+    stream_written sid off len explicit pad <= capacity /\
+    (explicit = false -> stream_written sid off len explicit pad = capacity) /\
+    (STREAM_FRAME_MAX_ENCODING_SIZE <= capacity - pad \/
+     stream_least sid off + (if explicit then varint_size len else 0) <= capacity - pad).
+Proof. exact p_c05_stream_admission. Qed.
+
+(* CRYPTO frames: the estimate is the largest data length whose frame fits *)
+Theorem c05_crypto_estimate : forall capacity off n, 0 <= capacity ->
+  crypto_estimate capacity off = Some (Some n) ->
+  0 < n /\ 1 + varint_size off + varint_size n + n <= capacity /\
+  (capacity < 1 + varint_size off + varint_size (n + 1) + (n + 1)).
+Proof. exact p_c05_crypto_estimate. Qed.
+
+Theorem c05_crypto_estimate_total : forall capacity off, 0 <= capacity <= 2 ^ 30 -> crypto_estimate capacity off <> None.
+Proof. exact p_c05_crypto_estimate_total. Qed.
 
 (* packet type byte(s) and headers of all six kinds (connection-id lengths 0..20, any token) *)
 Theorem c05_packet_type_rt : forall t rest, be_packet_type (put_packet_type t ++ rest) = TOk t rest.
@@ -70,6 +98,10 @@ Print Assumptions c05_frame_type_inj.
 Print Assumptions c05_frame_rt.
 Print Assumptions c05_frame_size.
 Print Assumptions c05_frame_max.
+Print Assumptions c05_admission.
+Print Assumptions c05_stream_admission.
+Print Assumptions c05_crypto_estimate.
+Print Assumptions c05_crypto_estimate_total.
 Print Assumptions c05_packet_type_rt.
 Print Assumptions c05_header_rt.
 Print Assumptions c05_header_size.
